@@ -41,8 +41,8 @@ def run(tier, seed, replay=None):
             cases.append(tickgen.gen_case(r.rng, local=0.9, safe=True, extra="maxassign=243 reps=1 threads=1,2,4,8,32"))
         for i in range(8 if tier == "quick" else 100):
             cases.append(tickgen.gen_case(r.rng, local=0.5, extra="maxassign=81 reps=2 threads=1,3,16"))
-        for i in range(10 if tier == "quick" else 120):
-            cases.append(tickgen.gen_case(r.rng, local=0.9, safe=True, tail_shards=True, divergent=(i % 2 == 0),
+        for i in range(30 if tier == "quick" else 240):
+            cases.append(tickgen.gen_case(r.rng, local=0.9, safe=True, tail_shards=True, divergent=(i % 3 != 0),
                                           extra="maxassign=81 reps=1 threads=1,2,3"))
         for _ in range(1 if tier == "quick" else 4):
             cases.append(tickgen.gen_case(r.rng, big=True, extra="maxassign=6 reps=1 threads=2,7"))
